@@ -204,10 +204,11 @@ type h2spec struct {
 	Reuse    bool   `json:"reuse,omitempty"`
 	Upload   bool   `json:"upload,omitempty"`
 	Bodiless bool   `json:"bodiless,omitempty"`
-	SlotWait bool   `json:"slot_wait,omitempty"`    // MAX_CONCURRENT_STREAMS = 1 and a held request: the scenario's request waits for a stream slot
-	Expect   bool   `json:"expect,omitempty"`       // Expect: 100-continue (upload)
-	EarlyRsp bool   `json:"early_resp,omitempty"`   // the response head arrives while the upload is stalled on flow control
-	Stalled  bool   `json:"stalled_body,omitempty"` // the request body is a plain io.Reader whose Read blocks and which Close does not wake; then the peer resets the stream
+	SlotWait bool   `json:"slot_wait,omitempty"`       // MAX_CONCURRENT_STREAMS = 1 and a held request: the scenario's request waits for a stream slot
+	Expect   bool   `json:"expect,omitempty"`          // Expect: 100-continue (upload)
+	EarlyRsp bool   `json:"early_resp,omitempty"`      // the response head arrives while the upload is stalled on flow control
+	Stall    bool   `json:"producer_stalls,omitempty"` // upload whose producer stalls after 32 KiB: Read blocks until the body is closed
+	Stalled  bool   `json:"stalled_body,omitempty"`    // the request body is a plain io.Reader whose Read blocks and which Close does not wake; then the peer resets the stream
 }
 
 type h2obs struct {
@@ -235,6 +236,7 @@ type h2obs struct {
 	ReqBody       bool     `json:"req_body"`
 	ReqBodyClosed bool     `json:"req_body_closed"`
 	ReadsAfter    int64    `json:"reads_after"`
+	ReaderStuck   bool     `json:"goroutine_still_inside_body_read"`
 	Quiesced      bool     `json:"quiesced"`
 	Stuck         []string `json:"stuck,omitempty"`
 	Leaked        []string `json:"leaked,omitempty"`
@@ -402,6 +404,18 @@ func h2steps(sp h2spec) []h2step {
 			r.peerFailed = true
 			time.Sleep(30 * time.Millisecond)
 			return err
+		}})
+		return st
+	}
+	if sp.Stall {
+		st = append(st, h2step{"32 KiB of the request body received, the producer has stalled", nil, func(r *h2run) error {
+			if !r.pc.waitFor(stepWait, func() bool { return r.pc.st[r.sid].nbody >= 32<<10 }) {
+				return errors.New("request body did not arrive")
+			}
+			if !settle(func() bool { return r.body.inRead.Load() > 0 }) {
+				return errors.New("the upload is not parked in the body's Read")
+			}
+			return nil
 		}})
 		return st
 	}
@@ -653,6 +667,9 @@ func runH2(sp h2spec, kind string, pos int, racy bool) (o h2obs) {
 	if sp.Upload {
 		method = "POST"
 		r.body = newTrackedBody(h2UploadLen)
+		if sp.Stall {
+			r.body.stallAt = 32 << 10
+		}
 		rq.SetBody(io.ReadCloser(r.body))
 		o.ReqBody = true
 	}
@@ -704,7 +721,7 @@ func runH2(sp h2spec, kind string, pos int, racy bool) (o h2obs) {
 		}
 		o.Harness = ""
 	}
-	o.Complete = pos == len(steps) && !racy && !sp.Stalled
+	o.Complete = pos == len(steps) && !racy && !sp.Stalled && !sp.Stall
 	o.PeerFailed = r.peerFailed
 	t0 := time.Now()
 	if racy {
@@ -796,6 +813,8 @@ func runH2(sp h2spec, kind string, pos int, racy bool) (o h2obs) {
 		r.pc.mu.Unlock()
 	}
 	if r.body != nil {
+		o.ReaderStuck = r.body.inRead.Load() > 0
+		r.body.release()  // (a harness resource: let a goroutine that is still parked in Read go)
 		r.body.markStop() // everything that worked for the request has ended: no Read may follow
 		settle(func() bool { return r.body.closes.Load() > 0 })
 		o.ReqBodyClosed = r.body.closes.Load() > 0
